@@ -1,11 +1,16 @@
 """C01 - typed values survive marshal -> unmarshal unchanged, for every type and position.
 
-For every catalogue type, both byte orders and prefix lengths 0..15 created by preceding u8 parameters:
-push the prefix, the value and a trailer byte into a real MarshalledMessageBody, validate() it, and read
-everything back through MessageBodyParser (typed get::<T>() and dynamic get_param()).  The property is
-evaluated on the implementation's own output: the value read back equals the value written (maps as maps,
-floats by bits), the trailer is the next thing read and nothing is left.  The extracted model (marshal_t /
-unmarshal_t / marshal_p / unmarshal_p / validate) runs the same scenario as the tie for the theorems.
+For every catalogue type (gen/catalogue.py: every generic Marshal/Unmarshal/Signature impl of the crate instantiated
+at concrete Rust types, including the borrowing decoders Cow<[E]>, &[u8], &str, the [E; N] / [E] / &[E] entry points,
+raw f64 with its memcpy path and - write side only - the 5-tuple), both byte orders and prefix lengths 0..15 created
+by preceding u8 parameters: push the prefix, the value and a trailer byte into a real MarshalledMessageBody,
+validate() it, and read everything back through MessageBodyParser (typed get::<T>() and dynamic get_param(), the
+latter from owned and from borrowing Param trees).  The property is evaluated on the implementation's own output:
+the value read back equals the value written (maps as maps, floats by bits), the trailer is the next thing read and
+nothing is left.  The extracted model (marshal_t / unmarshal_t / marshal_p / unmarshal_p / validate) runs the same
+scenario as the tie for the theorems.  A second stream ("big") holds the values the boundary-biased generator cannot
+reach: length fields >= 64 KiB, strings around 2^8 and 2^16 bytes, 64+ containers inside one array, legal nesting up
+to the limits.
 """
 import os
 
@@ -14,49 +19,112 @@ import wiregen as wg
 from checks.c02 import fields
 
 
+def plan(ctx, thorough):
+    """cases: dict(stream, op, api, ty, t, bo, prefix, toks)"""
+    r = ctx.sub_rng("c01")
+    cat = wg.catalogue()
+    monly = wg.catalogue_marshal_only()
+    n_rt, n_rp = (24, 16) if thorough else (6, 4)
+    cases = []
+    for ty in cat + monly:
+        t = wg.parse_ext(ty)
+        for api, n in (("typed", n_rt), ("param", n_rp)):
+            # the prefix is uniform on 0..15 and independent of the API: a random permutation of the 8 phases, taken in
+            # turn (so n cases see min(n, 8) distinct phases), plus 0 or 8
+            phases = list(range(8))
+            r.shuffle(phases)
+            for j in range(n):
+                prefix = phases[j % 8] + 8 * r.randrange(2)
+                bo = "le" if (j + r.randrange(2)) % 2 == 0 else "be"
+                toks, _ = wg.gen_value(r, t, bad=False)
+                if api == "typed":
+                    op = "RT"
+                else:
+                    op = ("RP", "RPR", "RPX")[(j + r.randrange(3)) % 3]
+                cases.append({"stream": "catalogue", "op": op, "api": api + ("-write/dynamic-read" if (api == "typed" and ty in monly) else ""),
+                              "ty": ty, "t": t, "bo": bo, "prefix": prefix, "toks": toks, "cls": None})
+    rb = ctx.sub_rng("c01-big")
+    for cls, ty, toks in wg.big_cases(rb, thorough):
+        t = wg.parse_ext(ty)
+        for bo in ("le", "be"):
+            cases.append({"stream": "big", "op": "RT", "api": "typed", "ty": ty, "t": t, "bo": bo, "prefix": rb.randrange(16), "toks": toks, "cls": cls})
+        cases.append({"stream": "big", "op": rb.choice(["RP", "RPR", "RPX"]), "api": "param", "ty": ty, "t": t, "bo": rb.choice(["le", "be"]),
+                      "prefix": rb.randrange(16), "toks": toks, "cls": cls})
+    return cases
+
+
+def line_of(c):
+    if c["op"] == "RT":
+        return "RT %s %s %d %s" % (c["ty"], c["bo"], c["prefix"], " ".join(c["toks"]))
+    return "%s %s %d %s" % (c["op"], c["bo"], c["prefix"], " ".join(c["toks"]))
+
+
 def run(ctx):
     thorough = ctx.tier == "thorough"
-    ctx.rule = ("case = (API typed|Param, catalogue type, byte order, prefix 0..15, value); boundary-biased encodable values; "
-                "non-trivial = prefix > 0 or the type has a container or text leaf; distinct = distinct case lines")
     ctx.trusted = ["Coq 8.16.1 kernel", "extraction (ExtrOcamlBasic only) + ocaml/wire/driver.ml", "harness wire binary and catalogue"]
-    ctx.assumptions = ["usize 64 bit, native little endian", "HashMap iteration order does not influence the read-back value (compared as maps)"]
+    ctx.assumptions = ["usize 64 bit, native little endian", "HashMap iteration order does not influence the read-back value (compared as maps)",
+                       "the 5-tuple has no typed decoder in the crate: it is written through the typed API and read back through get_param",
+                       "big stream: where the extracted model is too slow (element-wise paths over thousands of elements) only the property "
+                       "predicate on the implementation's output is evaluated; counted as big:model-skipped"]
     if not os.environ.get("VERIF_SKIP_PROOF"):
         ctx.try_proof()
     exe = vlib.harness_build(["wire"])["wire"]
     vlib.coq_make(["Wire/Ops.vo"])
     drv = vlib.ocaml_build("wire")
-    r = ctx.sub_rng("c01")
-    cat = wg.catalogue()
-    per_type = 40 if thorough else 10
-    cases, lines = [], []
-    for ty in cat:
-        t = wg.parse_ext(ty)
-        for i in range(per_type):
-            bo = "le" if (i + r.randrange(2)) % 2 == 0 else "be"
-            prefix = (i % 16) if i < 16 else r.randrange(16)
-            toks, _ = wg.gen_value(r, t, bad=False)
-            api = "RT" if i % 3 else "RP"
-            cases.append((api, ty, t, bo, prefix, toks))
-            if api == "RT":
-                lines.append("RT %s %s %d %s" % (ty, bo, prefix, " ".join(toks)))
-            else:
-                lines.append("RP %s %d %s" % (bo, prefix, " ".join(toks)))
-    ok, impl, err = vlib.par_run_lines(exe, [], lines, robust=True)
+    cases = plan(ctx, thorough)
+    lines = [line_of(c) for c in cases]
+    small = [i for i, c in enumerate(cases) if c["stream"] != "big"]
+    big = [i for i, c in enumerate(cases) if c["stream"] == "big"]
+    impl = [None] * len(cases)
+    model = [None] * len(cases)
+    ok, out, err = vlib.par_run_lines(exe, [], [lines[i] for i in small], robust=True)
     if not ok:
         ctx.tie_broken("wire harness crashed", err)
         return
-    ok, model, err = vlib.par_run_lines(drv, [], lines)
+    for i, o in zip(small, out):
+        impl[i] = o
+    ok, out, err = wg.run_each(exe, [lines[i] for i in big], robust=True, chunk=4)
+    if not ok:
+        ctx.tie_broken("wire harness crashed (big stream)", err)
+        return
+    for i, o in zip(big, out):
+        impl[i] = o
+    ok, out, err = vlib.par_run_lines(drv, [], [lines[i] for i in small])
     if not ok:
         ctx.tie_broken("extracted model crashed", err)
         return
-    for (api, ty, t, bo, prefix, toks), line, li, lm in zip(cases, lines, impl, model):
+    for i, o in zip(small, out):
+        model[i] = o
+    bigm = [i for i in big if wg.model_cheap(cases[i]["op"][:2], cases[i]["ty"] if cases[i]["op"] == "RT" else None, cases[i]["bo"], len(cases[i]["toks"]))]
+    ok, out, err = wg.run_each(drv, [lines[i] for i in bigm], chunk=2)
+    if not ok:
+        ctx.tie_broken("extracted model crashed (big stream)", err)
+        return
+    for i, o in zip(bigm, out):
+        model[i] = o
+
+    phases = {}
+    for c, line, li, lm in zip(cases, lines, impl, model):
+        t, prefix, toks = c["t"], c["prefix"], c["toks"]
         nontrivial = prefix > 0 or t[0] != "b" or t[1] in "sog"
-        ctx.case(line, nontrivial=nontrivial, sample={"case": line[:200], "impl": li[:200]} if ctx.evaluations % 301 == 0 else None)
-        ctx.count("api:" + api)
-        ctx.count("bo:" + bo)
+        # the canonical form of a big case is its class, type, byte order, prefix and size (the line has 100+ KB)
+        canon = line if c["stream"] != "big" else (c["cls"], c["op"], c["ty"], c["bo"], prefix, len(toks), hash(line))
+        ctx.case(canon, nontrivial=nontrivial, sample={"case": line[:200], "impl": li[:200]} if ctx.evaluations % 401 == 0 else None)
+        ctx.count("api:" + c["api"])
+        ctx.count("op:" + c["op"])
+        ctx.count("bo:" + c["bo"])
         ctx.count("prefix%8=" + str(prefix % 8))
         ctx.count("kind:" + t[0])
-        fi, fm = fields(li), fields(lm)
+        for fl in wg.flavours(c["ty"]):
+            if c["op"] == "RT":
+                ctx.count("rust-flavour:" + fl)
+        if c["stream"] == "big":
+            ctx.count("big:" + c["cls"])
+            if lm is None:
+                ctx.count("big:model-skipped")
+        else:
+            phases.setdefault((c["ty"], c["api"]), set()).add(prefix % 8)
+        fi = fields(li)
         why = None
         if fi["res"] == "pusherr":
             why = "an encodable value was refused by push"
@@ -70,8 +138,17 @@ def run(ctx):
             why = "the value read back differs from the value written"
         if why:
             ctx.disagreements_checked += 1
-            ctx.violation(why, {"line": line, "impl": li, "model": lm})
+            ctx.violation(why, {"line": line if len(line) < 4000 else line[:4000] + " ...(%d characters; regenerate with the seed)" % len(line),
+                                "impl": li[:2000], "model": (lm or "not run")[:2000], "stream": c["stream"], "class": c["cls"]})
             continue
+        cow = fi.get("cow", "b0o0")
+        if cow != "b0o0":
+            b, o = cow[1:].split("o")
+            ctx.count("cow-borrowed", int(b))
+            ctx.count("cow-owned", int(o))
+        if lm is None:
+            continue
+        fm = fields(lm)
         # descriptors read back are handles (printed 0 = live); which open file each one is belongs to C11
         mval = fm.get("val", "")
         if "h" in mval.split():
@@ -82,14 +159,40 @@ def run(ctx):
         if not agree:
             ctx.disagreements_checked += 1
             ctx.tie_broken("correspondence: the model does not round-trip a value the implementation round-trips",
-                           "%s\nimpl: %s\nmodel: %s" % (line, li, lm))
+                           "%s\nimpl: %s\nmodel: %s" % (line[:3000], li[:1500], lm[:1500]))
+    minph = min(len(v) for v in phases.values())
+    ntypes = len(set(ty for ty, _ in phases))
+    ctx.extra["phases"] = {"pairs (type, api)": len(phases), "min distinct prefix phases mod 8 per pair": minph,
+                           "pairs with all 8 phases": sum(1 for v in phases.values() if len(v) == 8)}
+    nbig = len(big)
+    ctx.rule = ("case = (API: typed get::<T> | dynamic get_param from an owned / borrowing / alternating Param tree, catalogue type, byte order, "
+                "prefix, value). Stream 1: %d types (%d catalogue types + %d marshal-only 5-tuple types, written typed and read dynamically) x "
+                "{typed: %d cases, param: %d cases}; the prefix is drawn uniformly from 0..15 independently of the API (a random permutation of "
+                "the 8 phases taken in turn, plus 0 or 8), so every (type, API) pair saw at least %d distinct phases mod 8 in this run; values "
+                "boundary-biased and encodable. Stream 2 (big, %d cases): length fields >= 64 KiB, strings of 255..70000 bytes, 64..100 "
+                "containers in one array/dict, nesting at the limits, typed in both byte orders plus one Param flavour. "
+                "non-trivial = prefix > 0 or the type has a container or text leaf; distinct = distinct case lines"
+                % (ntypes, len(wg.catalogue()), len(wg.catalogue_marshal_only()), 24 if thorough else 6, 16 if thorough else 4, minph, nbig))
+    want = 8 if thorough else 2
+    if minph < want:
+        ctx.tie_broken("generator: a (type, API) pair saw fewer than %d prefix phases" % want, str(minph))
 
 
 def replay(ctx, body):
     d = body["data"]
     exe = vlib.harness_build(["wire"])["wire"]
-    _, out, _ = vlib.run_lines(exe, [], [d["line"]])
-    print("case:", d["line"][:300])
+    line = d["line"]
+    if "...(" in line and d.get("stream") == "big":
+        # the line was too long to store: regenerate the big stream from the seed and take the one with this beginning
+        head = line.split(" ...(")[0]
+        cands = [l for l in (line_of(c) for c in plan(vlib.Ctx("C01", body.get("tier", "quick"), int(body["seed"])), body.get("tier") == "thorough")
+                             if c["stream"] == "big") if l.startswith(head)]
+        if not cands:
+            print("could not regenerate the case from the seed")
+            return 2
+        line = cands[0]
+    _, out, _ = vlib.run_lines(exe, [], [line])
+    print("case:", line[:300])
     print("impl:", out[0][:300])
     f = fields(out[0])
     bad = not (f["res"] == "ok" and f.get("validate") == "true" and f.get("trailer") == "ok" and f.get("left") == "0" and f.get("same") == "true")
